@@ -1,75 +1,74 @@
 (* DC08.v — dispatch entries of property C08: (arguments, observed output) ↦ verdict.
-   corr = the executable model's output equals the implementation's observed output on the projected observables
-          (ID lists as sets + number of members; error as a flag);
-   prop = the property's boolean checker (Neighbour.check_fixed / check_N, proved sound there) accepts the observed output. *)
+   corr = the executable model's output equals the implementation's observed output on the projected observables:
+          Get6/8/26: the exact list (the Go loop order is fixed, the model enumerates in that order);
+          GetN: the set of members + their number (Go map order in Unique is unspecified), the error flag, and that nothing but
+                a nil/empty list accompanies an error;
+   prop = the property's boolean checker (NeighbourChk.check_fixed3 / check_N3, proved sound there) on the observed output.
+   Outside the domain (IDs that parse but are not valid — e.g. "-1/0/0/0/0", on which the library does not return; layer counts beyond the
+   capacity bound; non-canonical spellings in the symmetry entries) the entries answer bad_case: never a silent pass; not generated. *)
 From Coq Require Import ZArith String List Bool.
-From SID Require Import Base Str Ids Wire Shift Neighbour.
+From SID Require Import Base Str Ids Wire Shift Neighbour NeighbourChk.
 Import ListNotations.
 Open Scope string_scope.
 
-Definition corr_list (m o : list string) : bool := set_eq m o && Nat.eqb (List.length m) (List.length o).
+Definition corr_set (m o : list string) : bool := set_eq m o && Nat.eqb (List.length m) (List.length o).
+Definition of_opt_bool (corr : bool) (p : option bool) (m : val) : verdict :=
+  match p with Some b => mkv corr b "-" m | None => bad_case end.
 
 (* Get6spatialIdsAdjacentToFaces / Get8spatialIdsAroundHorizontal / Get26spatialIdsAroundVoxel: no error result *)
 Definition d_fixed (model : string -> list string) (offs : list off) (args : list val) (obs : val) : verdict :=
   match args, as_LS obs with
   | [VS id], Some o =>
       let m := model id in
-      mkv (corr_list m o) (check_fixed offs id o) "-" (of_LS m)
+      of_opt_bool (same_list m o) (check_fixed3 offs id o) (of_LS m)
   | _, _ => bad_case
   end.
 
-(* GetNspatialIdsAroundVoxcels: (list, error) *)
-Definition obs_result (obs : val) : option (result (list string)) :=
+(* GetNspatialIdsAroundVoxcels: (list, error).  Observed: error flag + the list that came with it. *)
+Definition obs_result (obs : val) : option (bool * list string) :=
   match obs with
-  | VE _ => Some Err
-  | _ => match as_LS obs with Some l => Some (Ok l) | None => None end
+  | VE p => match as_LS p with Some l => Some (true, l) | None => None end
+  | _ => match as_LS obs with Some l => Some (false, l) | None => None end
   end.
 Definition res_val (r : result (list string)) : val := match r with Ok l => of_LS l | Err => VE VNil end.
-Definition corr_res (m o : result (list string)) : bool :=
-  match m, o with
-  | Ok a, Ok b => corr_list a b
-  | Err, Err => true
-  | _, _ => false
+Definition corr_res (m : result (list string)) (err : bool) (o : list string) : bool :=
+  match m with
+  | Ok a => negb err && corr_set a o
+  | Err => err && match o with [] => true | _ => false end
   end.
 Definition d_N (args : list val) (obs : val) : verdict :=
   match args with
   | [ids; VZ H; VZ V] =>
       match as_LS ids, obs_result obs with
-      | Some l, Some o =>
-          let m := nN_api l H V in
-          mkv (corr_res m o) (check_N l H V o) "-" (res_val m)
+      | Some l, Some (err, o) =>
+          match check_N3 l H V err o with
+          | Some p => let m := nN_api l H V in mkv (corr_res m err o) p "-" (res_val m)
+          | None => bad_case
+          end
       | _, _ => bad_case
       end
   | _ => bad_case
   end.
 
-(* symmetry, observed on the implementation: the members j of nb(id) with id not in nb(j); must be empty for a valid ID *)
-Definition check_sym (id : string) (o : list string) : bool :=
-  match parse_eid id with
-  | Some i => if validb i then match o with [] => true | _ => false end else true
-  | None => true
-  end.
+(* symmetry, observed on the implementation: the members j of nb(id) with id not in nb(j); must be empty.
+   Only canonical valid IDs (members are compared with the input string). *)
+Definition sym_dom (id : string) : bool :=
+  match parse_eid id with Some i => validb i && String.eqb (print_eid i) id | None => false end.
+Definition check_sym (o : list string) : bool := match o with [] => true | _ => false end.
 Definition d_sym (nb : string -> list string) (args : list val) (obs : val) : verdict :=
   match args, as_LS obs with
   | [VS id], Some o =>
-      let m := asym nb id in
-      mkv (corr_list m o) (check_sym id o) "-" (of_LS m)
+      if sym_dom id then let m := asym nb id in mkv (same_list m o) (check_sym o) "-" (of_LS m) else bad_case
   | _, _ => bad_case
   end.
 Definition d_symN (args : list val) (obs : val) : verdict :=
   match args, as_LS obs with
   | [VS id; VZ H; VZ V], Some o =>
-      let m := asym (nN1 H V) id in
-      mkv (corr_list m o) (if (H <? 0)%Z || (V <? 0)%Z then true else check_sym id o) "-" (of_LS m)
+      if sym_dom id && capacity_okb H V && (capacity H V <=? 729)%Z
+      then let m := asym (nN1 H V) id in mkv (corr_set m o) (check_sym o) "-" (of_LS m)
+      else bad_case
   | _, _ => bad_case
   end.
-
-(* the symmetry checker accepts exactly the empty list on valid IDs, which is what the theorems n*_asym_nil state of the model *)
-Lemma check_sym_sound i o : valid i -> check_sym (print_eid i) o = true -> o = [].
-Proof.
-  intros Hv. unfold check_sym. rewrite parse_print_eid by now apply valid_fields_ok.
-  rewrite (proj2 (validb_spec i) Hv). destruct o; [reflexivity|discriminate].
-Qed.
 
 Definition table_C08 : table :=
   [("Get6spatialIdsAdjacentToFaces", fun _ => d_fixed n6_api offs6);
